@@ -230,7 +230,8 @@ def run_check(prop, tier):
         lines.append(f"VIOLATION property={prop.id} replay={rp} no-failing-input-found")
         violations.append(rp)
     for cls, (stream, fields, why) in sorted(known_hits.items()):
-        print(f"KNOWN-FINDING: property={prop.id} {known_classes[cls].get('what', cls)} [class {cls}; e.g. {readable(fields)!r}]")
+        eg = [x if len(x) <= 60 else x[:40] + f"...({len(x)} chars)" for x in readable(fields)]
+        print(f"KNOWN-FINDING: property={prop.id} {known_classes[cls].get('what', cls)} [class {cls}; e.g. {eg!r}]")
     for l in lines:
         print(l)
     cov = {
